@@ -552,6 +552,7 @@ package lang
 //@   loop 2 invariant in-match-frame: evOK(e) && e.stackTop == $frame && $frame.parent == old(e.stackTop) && !$faulted && $nmatch == 1 && !$ranBlock && e.evalDepth == old(e.evalDepth) + 1 && $subErr == nil
 //@   loop 3 invariant protocol: evInv(e, old(e.stackTop)) && obj.Obj != nil && *obj.Obj != nil && e.evalDepth == old(e.evalDepth) + 1 && !$keyErr && !$cpErr && $subErr == nil
 
+//@ ghost $iterArr []*Cell
 //@ func Evaluator.evalStatement [C01,C02,C07,C08,C10,C11,C17,C20]
 //@   modifies valueHeap, e.stackTop, e.returnVal, e.evalDepth
 //@   ensures[C20] depth-restored: e.evalDepth == old(e.evalDepth)
@@ -561,6 +562,8 @@ package lang
 //@   ensures[C02,C08,C20] stack-restored: stackKept(e, old(e.stackTop), result)
 //@   ensures[C11] fault-latched: $faulted <==> isFault(result)
 //@   ensures evok: evOK(e)
+//@   after Evaluator.evalExpr: $iterArr = (ret1 == nil ? ret0.Value.Array : $iterArr)
+//@   assert?[C07] an-array-is-walked-as-it-was-when-the-loop-began: istype(stmt, *StatementForIn) ==> 0 <= index && index < len($iterArr) && item == $iterArr[index] @ Evaluator.evalStatement
 //@   init $subErr = nil
 //@   after Evaluator.evalExpr: $subErr = ret1
 //@   ensures[C01,C02,C07] an-expressions-outcome-is-passed-on-unchanged: $subErr != nil ==> result == $subErr
